@@ -37,6 +37,7 @@ if os.path.exists(tail):
 # section 9: seeded
 out.append("\n## 9. Independent breaking changes (`seeded/`) and which check catches which\n")
 out.append("Each change was written by a fresh sub-agent that saw only the property text and a scratch worktree, then confirmed by me in a scratch worktree (clean: demo passes; patched: builds, 44 tests pass, demo fails) and run through `tools/run_seeded.py` (apply to /repo, quick check, undo).  `input` = the check produced a concrete failing input; `tie only` = reported as no-failing-input-found.\n")
+out.append("\nFour rounds were run (suffixes m, n, p, q; from round 2 on the testers were given the summaries of all earlier changes for their property and asked for different sites and mechanisms).  First-run detection, before any strengthening: round 1: 65 of 80 reported (8 of them without a failing input), round 2: 53+4 of 80 (3 without input), round 3: 60 of 80 (7 without input; one change, C05-p1, became harmless after a fix and was retired), round 4: 43 of 58 (4 without input; 2 further candidates were not kept because their demonstrations did not fail in my confirmation run).  Every miss was handed to the property's check, which was strengthened (new generators aimed at the trigger, new oracles, translator ties, model extensions) until the change was reported with a concrete input while the unchanged tree stayed silent; the table shows the final state on /repo HEAD.  Patches whose context lines were invalidated by later `fix:` commits were rebased by hand (noted in their meta.json).\n")
 res = {}
 rf = os.path.join(V, "seeded", "RESULTS_ALL.json")
 if os.path.exists(rf):
